@@ -9,7 +9,8 @@ OPN = {0: "clock", 1: "deposit", 2: "withdraw", 3: "borrow", 4: "repay", 7: "clo
        16: "collect_fees", 17: "liquidate", 18: "bankruptcy", 19: "set_price",
        30: "fixture_risk_admin", 31: "fixture_bank_flags",
        32: "collect_fees_foreign_ata", 33: "fixture_account_flags", 34: "borrow_without_risk_accounts", 35: "withdraw_without_risk_accounts",
-       36: "close_bank_probe", 37: "liquidate_without_risk_accounts", 38: "fixture_pending_fee_change"}
+       36: "close_bank_probe", 37: "liquidate_without_risk_accounts", 38: "fixture_pending_fee_change",
+       39: "rotate_global_fee_wallet", 40: "collect_fees_previous_wallet_ata"}
 HB_EXTRA = 13  # tokens after the 38 bankops tokens, before e-mode entries
 
 
@@ -538,7 +539,7 @@ def gen_tokenless_case(rng):
     return " ".join(map(str, toks))
 
 # ---------------------------------------------------------------------------------------------
-OPLEN = {0: 2, 1: 5, 2: 5, 3: 4, 4: 5, 7: 3, 10: 2, 16: 2, 17: 6, 18: 3, 19: 3, 30: 2, 31: 3, 32: 3, 33: 3, 34: 4, 35: 5, 36: 2, 37: 6, 38: 8}
+OPLEN = {0: 2, 1: 5, 2: 5, 3: 4, 4: 5, 7: 3, 10: 2, 16: 2, 17: 6, 18: 3, 19: 3, 30: 2, 31: 3, 32: 3, 33: 3, 34: 4, 35: 5, 36: 2, 37: 6, 38: 8, 39: 1, 40: 2}
 
 
 def parse_case(line):
